@@ -37,7 +37,7 @@ def main():
     os.rmdir(wt)
     if reuse:
         wt = reuse
-        sh('git -C %s checkout -- .' % wt)
+        sh('git -C %s checkout -- . && git -C %s clean -fdq' % (wt, wt))
         rc, head = sh('git -C %s rev-parse HEAD' % wt)
         rc, rhead = sh('git -C /repo rev-parse HEAD')
         assert head == rhead, 'scratch worktree is not at /repo HEAD'
@@ -68,7 +68,7 @@ def main():
             meta['note'] = 'demo mentions the agent worktree path; run with PYTHONPATH=<tree>'
     finally:
         if reuse:
-            sh('git -C %s checkout -- .' % wt)
+            sh('git -C %s checkout -- . && git -C %s clean -fdq' % (wt, wt))
         else:
             sh('git -C /repo worktree remove --force %s' % wt)
             shutil.rmtree(wt, ignore_errors=True)
@@ -99,7 +99,7 @@ def main():
             results[pid] = {'exit': rc, 'findings': fired[:6]}
         shutil.rmtree(ev, ignore_errors=True)
     finally:
-        sh('git -C %s checkout -- .' % target)
+        sh('git -C %s checkout -- . && git -C %s clean -fdq -- mistletoe' % (target, target))
         rc, out = sh('git -C %s status --short' % target)
         assert out.strip() == '', out
     caught = {p: r for p, r in results.items() if r['exit'] == 1}
